@@ -9,7 +9,7 @@ ID = "C11"
 LEVEL = "exploration"
 RULE = ("Hypothesis generates trash contents designed to lead a purge astray: payloads that are "
         "symlinks to files / directories OUTSIDE the trash (absolute, relative, dangling), trees "
-        "with such links at depth 1-3, info files that are symlinks, unusual info names "
+        "with such links at depth 1-3, empty directories (also mode 000), info files that are symlinks, unusual info names "
         "('x.trashinfo.trashinfo', names with newlines, '.trashinfo'), orphans, and trash "
         "directories reached through a symlink (XDG_DATA_HOME link, --trash-dir link); commands "
         "trash-empty, trash-empty DAYS, trash-rm PATTERN. Oracle: (1) frame - the lstat snapshot of "
@@ -39,7 +39,7 @@ def strategy_(draw, tier):
     for i in range(draw(st.integers(1, 6))):
         tdir, base = draw(st.sampled_from(tds))
         ents.append(dict(tdir=tdir, base=base, name=draw(gen.names(long_ok=False)),
-                         kind=draw(st.sampled_from(["link", "link", "tree", "tree", "file"])),
+                         kind=draw(st.sampled_from(["link", "link", "tree", "tree", "file", "emptydir"])),
                          link=draw(st.sampled_from(LINKS)),
                          inner=[draw(st.sampled_from(LINKS)) for _ in range(draw(st.integers(0, 3)))],
                          special=draw(st.sampled_from(SPECIAL)),
@@ -120,6 +120,10 @@ def run_case(case):
                 link_kinds.add(e["link"])
             elif e["kind"] == "file":
                 tw.nodes.append({"p": pp, "t": "f", "c": "payload"})
+            elif e["kind"] == "emptydir":
+                # an empty directory as payload (removal primitives that prune empty parents
+                # would take files/ and the trash directory with it)
+                tw.nodes.append({"p": pp, "t": "d", "m": [0o755, 0o700, 0][i % 3]})
             else:
                 tw.nodes.append({"p": pp + "/plain", "t": "f", "c": "plain"})
                 d = pp
